@@ -84,6 +84,14 @@ func families() []family {
 			gen: func(n int) string { return "SELECT '" + strings.Repeat("x\n", n) + "'" }},
 		{name: "string-utf8", doc: "one string literal of n two-byte characters", bytesPer: 2,
 			gen: func(n int) string { return "SELECT '" + strings.Repeat("é", n) + "'" }},
+		{name: "string-escapes", doc: "one string literal with n backslash escapes", bytesPer: 4,
+			gen: func(n int) string { return "SELECT '" + strings.Repeat(`ab\n`, n) + "'" }},
+		{name: "strings-escaped-many", doc: "n string literals with a backslash escape each", bytesPer: 9,
+			gen: func(n int) string { return "SELECT " + rep(n, `'C:\\d'`, ", ") }},
+		{name: "quoted-identifiers-many", doc: "n double-quoted identifiers with a doubled quote each", bytesPer: 9,
+			gen: func(n int) string { return "SELECT " + rep(n, `"a""b"`, ", ") + " FROM t" }},
+		{name: "numbers-many", doc: "n numeric literals in every form", bytesPer: 8,
+			gen: func(n int) string { return "SELECT " + rep(n, "1.5e3", ", ") }},
 		{name: "strings-many", doc: "n short string literals on one line", bytesPer: 5,
 			gen: func(n int) string { return "SELECT " + rep(n, "'x'", ", ") }},
 		{name: "dollar-string", doc: "one dollar-quoted string of n bytes", bytesPer: 1,
